@@ -746,7 +746,8 @@ class _Exporter:
         add(f"{indent}return {return_values}")
         self._name_remappings.pop()
         script = "\n".join(result)
-        if self.skipped_initializers:
+        if self.skip_initializers:
+            # The script was indented to sit inside make_model, even if no initializer was large enough to be skipped.
             value_infos = _translate_value_infos(graph.value_info)
             return self._substitute_initializers(script, function_name, value_infos)
         return script
